@@ -183,6 +183,7 @@ pub fn run(p: &Params, rep: &mut Report) {
             super::ladder::traversal_gap(rep, super::ladder::Trav::GetString, centre, p.seed);
         }
     }
+    for_firstchar_programs(p, rep, p.size(25, 250), |prog, seed, rep| check_program(prog, seed, p.thorough, rep));
     for_max_loop_programs(p, rep, p.size(6, 60), |prog, seed, rep| check_program(prog, seed, p.thorough, rep));
     let stride = 1;
     for_tiny_programs(p, rep, stride, p.size(150, 3000), |prog, seed, rep| check_program(prog, seed, p.thorough, rep));
